@@ -4,6 +4,8 @@ use num_traits::Zero;
 use props::alpha::*;
 use props::conv::*;
 use props::engine::*;
+use props::faulty::{Fault, FaultyWriter};
+use std::fmt::Write as _;
 use serde_json::{json, Value};
 use spec::numeral::expected_parse;
 use spec::*;
@@ -93,6 +95,47 @@ impl Kind {
     }
 }
 
+impl Kind {
+    /// the same rendering into a caller-supplied sink (None for the three String-returning methods, which take none)
+    fn render_into(self, x: &BigDecimal, w: &mut FaultyWriter) -> Option<std::fmt::Result> {
+        Some(match self {
+            Kind::Display => write!(w, "{}", x),
+            Kind::LowerExp => write!(w, "{:e}", x),
+            Kind::UpperExp => write!(w, "{:E}", x),
+            Kind::Sci | Kind::Eng | Kind::Plain => return None,
+            Kind::WriteSci => x.write_scientific_notation(w),
+            Kind::WriteEng => x.write_engineering_notation(w),
+            Kind::WritePlain => x.write_plain_string(w),
+            Kind::RefDisplay => write!(w, "{}", x.to_ref()),
+            Kind::RefLowerExp => write!(w, "{:e}", x.to_ref()),
+            Kind::RefUpperExp => write!(w, "{:E}", x.to_ref()),
+        })
+    }
+}
+
+/// S7 step: render `a` through `k1` into a sink with one injected fault; what the sink accepted must be a prefix of
+/// the fault-free text, a refused write must surface as Err (and only then).  Returns a violation of those, if any.
+fn faulted_render(k1: Kind, a: &Dec, pa: &BigDecimal, fault: Fault, full: &str) -> Option<Violation> {
+    let mut w = FaultyWriter::new(fault);
+    let case = json!({"render": k1.name(), "x": a.show(), "fault": fault.json()});
+    let mk = |class: &str, exp: String, obs: String| Violation::new(&format!("faulted render {}", k1.name()), class, case.clone(), exp, obs).attr("render", k1.name()).attr("fault", true);
+    let r = match guard(|| k1.render_into(pa, &mut w)) {
+        Ok(Some(r)) => r,
+        Ok(None) => return None,
+        Err(p) => return Some(mk("panic", "Ok or Err".into(), p)),
+    };
+    if !full.starts_with(&w.written) {
+        return Some(mk("sink_received_other_text", format!("a prefix of {:?}", clip(full)), format!("{:?}", clip(&w.written))));
+    }
+    if w.failed && r.is_ok() {
+        return Some(mk("write_error_swallowed", "Err(fmt::Error)".into(), format!("Ok(()) with {:?} delivered", clip(&w.written))));
+    }
+    if !w.failed && (r.is_err() || w.written != full) {
+        return Some(mk("fault_free_run_differs", format!("Ok with {:?}", clip(full)), format!("{:?} with {:?}", r, clip(&w.written))));
+    }
+    None
+}
+
 struct Cfg {
     lower: i128,
     upper: i128,
@@ -178,6 +221,40 @@ fn check_all(run: &Run, cfg: &Cfg, x: &Dec, t: &mut Tally) {
 fn replay(cfg: &Cfg, case: &Value) -> Vec<Violation> {
     let x = jd(&case["x"]);
     let kind = Kind::from_name(case["render"].as_str().unwrap());
+    if let Some(f) = case.get("fault") {
+        // a faulted rendering judged on its own
+        let full = kind.render(&bd(&x));
+        if let Some(h) = case.get("after_fault") {
+            let (a, k1) = (jd(&h["x"]), Kind::from_name(h["render"].as_str().unwrap()));
+            let mut w = FaultyWriter::new(Fault::from_json(&h["fault"]));
+            let _ = guard(|| k1.render_into(&bd(&a), &mut w));
+        }
+        return faulted_render(kind, &x, &bd(&x), Fault::from_json(f), &full)
+            .map(|mut v| {
+                if let (Some(h), Some(o)) = (case.get("after_fault"), v.case.as_object_mut()) {
+                    o.insert("after_fault".into(), h.clone());
+                }
+                v
+            })
+            .into_iter()
+            .collect();
+    }
+    if let Some(h) = case.get("after_fault") {
+        // history: an earlier rendering whose sink failed at the recorded point, on this thread
+        let a = jd(&h["x"]);
+        let k1 = Kind::from_name(h["render"].as_str().unwrap());
+        let mut w = FaultyWriter::new(Fault::from_json(&h["fault"]));
+        let _ = guard(|| k1.render_into(&bd(&a), &mut w));
+        return check(cfg, kind, &bd(&x), &x)
+            .map(|mut v| {
+                if let Some(o) = v.case.as_object_mut() {
+                    o.insert("after_fault".into(), h.clone());
+                }
+                v
+            })
+            .into_iter()
+            .collect();
+    }
     if let Some(a) = case.get("after") {
         // a recorded history: the earlier rendering (of another decimal) first
         let prev = bd(&jd(a));
@@ -336,6 +413,77 @@ fn main() {
                     }
                 }
             }
+        }
+        t
+    });
+    // S7: environment faults.  Every rendering that takes a sink is run against a sink that refuses output at
+    // EVERY point (byte budgets 0..len whole-fragment and torn, and every write_str call index): one deviation
+    // from the fault-free environment per execution.  The faulted call itself must deliver a prefix and report the
+    // error; then the history continues on the same thread with every rendering of a second decimal, judged as usual.
+    let fa: Vec<Dec> = ["0", "7", "-42.50", "1e-9", "-1.2345678901234567890123456789e40", "12345678901234567890.12345", "5e25", "-0.000001234", "1000000000000000000000e-3"]
+        .iter()
+        .map(|t| expected_parse(t).expect("S7 operand"))
+        .collect();
+    let fb: Vec<Dec> = ["-42.50", "3", "0.00", "9.99e-20", "-123456789012345678901234567890e7"].iter().map(|t| expected_parse(t).expect("S7 operand")).collect();
+    run.bound("S7_fault_histories", json!({"first_operands": fa.len(), "second_operands": fb.len(), "fault_points": "every byte budget 0..len (whole-fragment and torn) and every call index 0..min(len+1,24)"}));
+    run.par("S7 renderings into failing sinks, then fault-free renderings", fa.len() * KINDS.len(), |i| {
+        let mut t = Tally::default();
+        let (a, k1) = (&fa[i / KINDS.len()], KINDS[i % KINDS.len()]);
+        let pa = bd(a);
+        let full = match guard(|| k1.render(&pa)) {
+            Ok(s) => s,
+            Err(_) => return t, // reported by S1..S5
+        };
+        if k1.render_into(&pa, &mut FaultyWriter::new(Fault::Bytes(usize::MAX))).is_none() {
+            return t;
+        }
+        for fault in Fault::all(full.len()) {
+            // each history runs on a fresh thread: per-thread state starts clean, so a recorded history replays
+            let tt = std::thread::scope(|sc| {
+                sc.spawn(|| {
+                    let mut t = Tally::default();
+                    let arm = || {
+                        let mut w = FaultyWriter::new(fault);
+                        let _ = guard(|| k1.render_into(&pa, &mut w));
+                        w.failed
+                    };
+                    let h = json!({"x": a.show(), "render": k1.name(), "fault": fault.json()});
+                    t.states += 1;
+                    // the faulted call on a clean thread, and once more after itself
+                    for again in [false, true] {
+                        t.transitions += 1;
+                        if let Some(mut v) = faulted_render(k1, a, &pa, fault, &full) {
+                            if again {
+                                if let Some(o) = v.case.as_object_mut() {
+                                    o.insert("after_fault".into(), h.clone());
+                                }
+                            }
+                            run.report(v);
+                        }
+                    }
+                    for b in fb.iter() {
+                        let pb = bd(b);
+                        for k2 in KINDS {
+                            // re-arm the fault before every continuation: a later fault-free call may repair the state
+                            let failed = arm();
+                            t.transitions += 2;
+                            if failed {
+                                t.nontrivial += 1;
+                            }
+                            if let Some(mut v) = check(&cfg, k2, &pb, b) {
+                                if let Some(o) = v.case.as_object_mut() {
+                                    o.insert("after_fault".into(), h.clone());
+                                }
+                                run.report(v.attr("history", true).attr("fault", true));
+                            }
+                        }
+                    }
+                    t
+                })
+                .join()
+                .expect("S7 history thread")
+            });
+            t.merge(&tt);
         }
         t
     });
